@@ -203,6 +203,9 @@ func c08Ask(b []byte, t byte, depth int, max *uint64, steps *int) (int, bool) {
 			return 0, false
 		}
 		n := uint64(binary.BigEndian.Uint32(b))
+		if n >= 1<<31 {
+			return 0, false // sign bit set: every skipper rejects it as negative before asking for anything
+		}
 		if !ask(4 + n) {
 			return 0, false
 		}
@@ -233,6 +236,9 @@ func c08Ask(b []byte, t byte, depth int, max *uint64, steps *int) (int, bool) {
 			return 0, false
 		}
 		kt, vt, c := b[0], b[1], uint64(binary.BigEndian.Uint32(b[2:]))
+		if c >= 1<<31 {
+			return 0, false // negative count: rejected before any request
+		}
 		ks, vs := c08Size[kt], c08Size[vt]
 		if ks > 0 && vs > 0 {
 			n := c * uint64(ks+vs)
@@ -257,6 +263,9 @@ func c08Ask(b []byte, t byte, depth int, max *uint64, steps *int) (int, bool) {
 			return 0, false
 		}
 		et, c := b[0], uint64(binary.BigEndian.Uint32(b[1:]))
+		if c >= 1<<31 {
+			return 0, false // negative count: rejected before any request
+		}
 		if s := c08Size[et]; s > 0 {
 			n := c * uint64(s)
 			if !ask(5 + n) {
